@@ -537,6 +537,10 @@ func c18History(r *kit.Run, idx int64, rng *rand.Rand) {
 	if withLen {
 		model = setModelWhole
 	}
+	if r.Build != "plain" {
+		r.Count("histories_run_for_the_race_detector_only", 1)
+		return
+	}
 	switch kit.CheckLin(model, ops, 20*time.Second) {
 	case porcupine.Illegal:
 		r.Violation("C18/Set.concurrent/not-linearizable", idx, desc, "the history of a synchronized set has no sequential explanation", nil)
